@@ -40,13 +40,15 @@ def Graph.ok {n : Nat} (G : Graph n) : Prop :=
 structure St (n : Nat) where
   set : Fin n → Bool          -- the pair has a literal
   err : Bool := false         -- an assertion of `add_literal` has failed
+  log : List Nat := []        -- the pairs in the order in which they got their literal
 
 def St.le {n : Nat} (s t : St n) : Prop := ∀ i, s.set i = true → t.set i = true
 
 /-- number of pairs without literal -/
 def St.open_ {n : Nat} (s : St n) : Nat := (List.finRange n).countP fun i => !s.set i
 
-def St.put {n : Nat} (s : St n) (k : Fin n) : St n := { s with set := fun i => if i = k then true else s.set i }
+def St.put {n : Nat} (s : St n) (k : Fin n) : St n :=
+  { s with set := fun i => if i = k then true else s.set i, log := s.log ++ [k.val] }
 
 /-- `StepData.add_literal`: asserts that there is no literal yet -/
 def St.addLiteral {n : Nat} (s : St n) (k : Fin n) : St n :=
@@ -171,5 +173,29 @@ decreasing_by
     | (apply Prod.Lex.right; omega)
     | (apply Prod.Lex.left; omega)
     | (rw [Prod.lex_def]; simp only; omega)
+
+/-- `Graph.ok` as a test, for running the model on graphs taken from real runs -/
+def Graph.okB {n : Nat} (G : Graph n) : Bool :=
+  (List.finRange n).all fun k => match G.kind k with
+    | .leaf => true
+    | .alias c => decide (G.rank c < G.rank k)
+    | .op _ a b => decide (G.rank a < G.rank k) && decide (G.rank b < G.rank k)
+    | .op3 a b c => decide (G.rank a < G.rank k) && decide (G.rank b < G.rank k) && decide (G.rank c < G.rank k)
+    | .early _ => true
+
+theorem Graph.okB_ok {n : Nat} (G : Graph n) (h : G.okB = true) : G.ok := by
+  intro k
+  have hk := (List.all_eq_true.mp h) k (List.mem_finRange k)
+  cases hkind : G.kind k with
+  | leaf => trivial
+  | alias c => rw [hkind] at hk; simpa using hk
+  | op r a b => rw [hkind] at hk; simpa using hk
+  | op3 a b c => rw [hkind] at hk; simp only [Bool.and_eq_true, decide_eq_true_eq] at hk; exact ⟨hk.1.1, hk.1.2, hk.2⟩
+  | early c => trivial
+
+/-- translate the given pairs one after the other (the loop over the todo list) -/
+def trAll {n : Nat} (G : Graph n) (hG : G.ok) (fixed : Bool) : List (Fin n) → St n → St n
+  | [], s => s
+  | k :: ks, s => trAll G hG fixed ks (tr G hG fixed k s).1
 
 end TelModel.TR
